@@ -41,7 +41,7 @@ ASSUMPTIONS = [
     "measurements are not assumed to belong to the same shot.",
     "Reference gate matrices come from pv.ref.gates; the reference never calls PennyLane's simulator.",
 ]
-BUDGET = {"quick": {"examples": 170}, "thorough": {"examples": 11000, "shards": 16}}
+BUDGET = {"quick": {"examples": 300}, "thorough": {"examples": 11000, "shards": 16}}
 SHRINK_LISTS = ("steps", "meas", "t", "e")
 ALPHA = stt.ALPHA
 TOL = 1e-8
@@ -190,9 +190,11 @@ def _case(draw, tier):
         meas = draw(st.lists(_terminal(wires, n_mcm, mode, "any"), min_size=1, max_size=3))
     spec = {"wires": wires, "steps": steps, "meas": meas, "mode": mode}
     if mode == "shots":
-        method, pm = draw(st.sampled_from([("deferred", "hw-like"), ("deferred", "fill-shots"), ("tree-traversal", "hw-like"),
-                                           ("tree-traversal", "hw-like"), ("one-shot", "hw-like"), ("one-shot", "hw-like")]
-                                          + [("one-shot", "fill-shots"), ("tree-traversal", "fill-shots")] * (1 if draw(st.integers(0, 4)) == 0 else 0)))
+        configs = [("deferred", "hw-like"), ("deferred", "fill-shots"), ("tree-traversal", "hw-like"), ("tree-traversal", "hw-like"),
+                   ("one-shot", "hw-like"), ("one-shot", "hw-like")]
+        if draw(st.integers(0, 4)) == 0:
+            configs += [("one-shot", "fill-shots"), ("tree-traversal", "fill-shots")]  # documented as unsupported: must be refused
+        method, pm = draw(st.sampled_from(configs))
         if any(s["t"] == "m" and s["post"] is not None for s in steps) and not any(m["mp"] in ("sample", "counts") for m in meas):
             meas.append({"mp": "sample", "w": draw(gen.subset(wires, draw(st.integers(1, n))))})  # makes the number of valid shots observable
         shots = draw(st.sampled_from([300, 600] if method == "one-shot" else [2000, 5000, 20000]))
